@@ -193,6 +193,7 @@ def str_is(s, lit):
     return all(z3.is_bv_value(z3.simplify(b)) and z3.simplify(b).as_long() == c for b, c in zip(s.bytes, lit))
 
 
+KF_EXPORT_STAR = 'C09/graph/export-star-not-implemented'
 GRAPHS = [
     # (name, entry, modules, expected result)  - nested directories: a dependency's own relative imports resolve against ITS directory
     ('nested', '/d/main.ts', {
@@ -214,6 +215,16 @@ GRAPHS = [
         '/d/a.ts': 'export { x, bump } from "./b.ts";',
         '/d/b.ts': 'export { x, bump } from "./c.ts";',
         '/d/c.ts': 'export let x = 1; export function bump() { x = x + 1 }'}, '1/1/1/1 2/2/2/2'),
+    # an import that is exported again (`import { x } from ..; export { x }`) is a live view too
+    ('import-then-export', '/d/main.ts', {
+        '/d/main.ts': 'import { x, f, bump } from "./a.ts"; import * as A from "./a.ts"; const r = [x, A.x, typeof f].join(","); bump(); r + "|" + [x, A.x].join(",")',
+        '/d/a.ts': 'import { x, f, bump } from "./c.ts"; export { x, f, bump };',
+        '/d/c.ts': 'export let x = 1; export function f() { return 2 } export function bump() { x = x + 1 }'}, '1,1,function|2,2'),
+    # `export * from` (known finding: not implemented, the module exports only its own names)
+    ('export-star', '/d/main.ts', {
+        '/d/main.ts': 'import * as A from "./a.ts"; Object.keys(A).sort().join(",")',
+        '/d/a.ts': 'export * from "./c.ts"; export const own = 1;',
+        '/d/c.ts': 'export const y = 1; export const z = 2;'}, 'own,y,z'),
     ('reexport', '/d/main.ts', {
         '/d/main.ts': 'import { x, inc } from "./re.ts"; inc(); inc(); x',
         '/d/re.ts': 'export { x, inc } from "./deep/impl.ts";',
@@ -252,7 +263,7 @@ def check_graphs(rep):
                         dup = dup or ('non-canonical path ' + rq['resolved'])
             if val != want or dup:
                 p = rep.write_replay('graph-%s' % name, dict(cmds[k - 1], expected=want, observed=o))
-                rep.violation('C09/graph/%s' % name, 'module graph %r supplied %s/%s: outcome %r (expected %r)%s' % (
+                rep.violation(KF_EXPORT_STAR if name == 'export-star' else 'C09/graph/%s' % name, 'module graph %r supplied %s/%s: outcome %r (expected %r)%s' % (
                     name, order, batch, got, want, '; requested twice or non-canonically: %s' % dup if dup else ''), p)
     rep.sample({'kernel': 'module graphs through the public API', 'graphs': len(GRAPHS), 'supply_orders': 3})
 
